@@ -50,6 +50,10 @@ Definition FreeName (w : world) (m : N) (path : list N) : Prop :=
   exists x, nth_opt (w_models w) (N.to_nat m) = Some x /\ assoc_get path (m_idents x) = None.
 
 
+(* every node of a fresh region (id >= lo) lists only sub-elements of that region *)
+Definition FreshKids (lo : N) (w : world) : Prop :=
+  forall p n c, lo <= p -> w_nodes w p = Some n -> In (CElem c) (n_content n) -> lo <= c.
+
 (* descendants through content lists: what can be navigated to from a *)
 Inductive Sub (w : world) (a : id) : id -> Prop :=
 | Sub_refl : Sub w a a
